@@ -238,7 +238,8 @@ def write_replay(pid, formula, family, vh_cfg, steps, extra=None):
     body = {"property": pid, "formula": formula, "family": family, "vh_cfg": vh_cfg, "steps": steps}
     body.update(extra or {})
     h = hashlib.sha1(json.dumps(body, sort_keys=True).encode()).hexdigest()[:10]
-    path = os.path.join(d, f"{pid}-{formula}-{h}.json")
+    safe = re.sub(r"[^A-Za-z0-9_.-]+", "_", formula)
+    path = os.path.join(d, f"{pid}-{safe}-{h}.json")
     with open(path, "w") as fh:
         json.dump(body, fh, indent=1)
         fh.write("\n")
